@@ -259,6 +259,11 @@ class World:
     # ---- lookups on the implementation + comparison
     def rnd_range(self):
         rng = self.rng
+        if rng.random() < 0.04:
+            # ranges with more members than fit a machine word
+            start = rng.choice([0, -3, 2**63, 2])
+            step = rng.choice([1, 1, 2, 3])
+            return (start, 2**64, step), range(start, 2**64, step)
         r = rng.random()
         if r < 0.45:
             p = rng.randrange(-1, 17)
